@@ -423,9 +423,17 @@ def run_property(prop, tier, only, keep_ws, jobs, seed):
                     results[h["id"]] = info
         # replay failures
         violations = 0
-        for h in hs:
+        open_findings = any(f.get("status") == "open" and f.get("property") == prop for f in load_known())
+        # cheapest counterexamples first (the replay re-runs the solver for the trace)
+        for h in sorted(hs, key=lambda h: results[h["id"]].get("duration_ms") or 0):
             info = results[h["id"]]
             if info["verdict"] != "fail":
+                continue
+            if violations and not open_findings:
+                # one reproduced violation decides the exit code; replaying every further failing
+                # harness (solver re-run + native build each) only costs time
+                info["verdict"] = "fail-not-replayed"
+                info["reason"] = "failed as well; not replayed because a reproduced violation is already reported"
                 continue
             rp = replay_mod.replay_failure(sys.modules[__name__], ws, prop, h, info)
             info["replay"] = rp
@@ -514,6 +522,7 @@ def make_coverage(prop, tier, hs, results, gen_report, attached, runs, inconclus
         "engine": "Kani 0.68.0 / CBMC 6.11.0 / CaDiCaL, unwinding assertions on",
         "harnesses_run": len(hs),
         "harnesses_ok": sum(1 for h in hs if results[h["id"]]["verdict"] in ("ok", "known")),
+        "harnesses_failed": [h["id"] for h in hs if results[h["id"]]["verdict"] in ("fail", "fail-not-replayed")],
         "vccs_generated": vccs,
         "symex_seconds": round(symex_s, 2),
         "solver_seconds": round(solver_s, 2),
